@@ -22,7 +22,7 @@ func TestMain(m *testing.M) { ev.Main(m, "C12") }
 
 // Step ops: connect (next connection of the chain, on node Node), ping/sub/disconnect/close
 // (connection J), gossip (deliver pending message number G mod pending to node Node),
-// gossipall.
+// announce (deliver to node Node exactly the broadcast announcing connection J's session), gossipall.
 type Step struct {
 	Op   string `json:"op"`
 	J    int    `json:"j,omitempty"`
@@ -145,6 +145,24 @@ func run(c Case) (f *failure, nontrivial bool) {
 			}
 			if f := settle(); f != nil {
 				return f, nontrivial
+			}
+		case "announce":
+			// node Node is delivered the broadcast that announces the session of connection J and
+			// nothing else: the announcement of an earlier session arriving late, before its removal
+			if st.J >= len(chain) {
+				continue
+			}
+			cl.CollectGossip()
+			for i, g := range cl.Gossip() {
+				if announces(g.Msg, chain[st.J].sid) {
+					deliver(i, cl.Nodes[st.Node%len(cl.Nodes)])
+				}
+			}
+			if f := settle(); f != nil {
+				return f, nontrivial
+			}
+			if st.J < len(chain)-1 {
+				nontrivial = true
 			}
 		case "gossipall":
 			cl.DeliverAllGossip()
@@ -327,7 +345,7 @@ func TestRegress(t *testing.T)    { ev.Regress(t, kinds, "testdata/regress") }
 func TestRandom(t *testing.T) {
 	rapid.Check(t, func(t *rapid.T) {
 		c := Case{Nodes: rapid.IntRange(1, 3).Draw(t, "nodes")}
-		chainLen := rapid.IntRange(2, 4).Draw(t, "chain")
+		chainLen := rapid.IntRange(2, 5).Draw(t, "chain")
 		conns := 0
 		c.Steps = append(c.Steps, Step{Op: "connect", Node: rapid.IntRange(0, c.Nodes-1).Draw(t, "node")})
 		conns++
@@ -343,8 +361,10 @@ func TestRandom(t *testing.T) {
 				c.Steps = append(c.Steps, Step{Op: "ping", J: rapid.IntRange(0, conns-1).Draw(t, "j")})
 			case x < 8:
 				c.Steps = append(c.Steps, Step{Op: rapid.SampledFrom([]string{"disconnect", "close"}).Draw(t, "end"), J: rapid.IntRange(0, conns-1).Draw(t, "j")})
-			case x < 11:
+			case x < 10:
 				c.Steps = append(c.Steps, Step{Op: "gossip", G: rapid.IntRange(0, 40).Draw(t, "g"), Node: rapid.IntRange(0, c.Nodes-1).Draw(t, "to")})
+			case x < 11:
+				c.Steps = append(c.Steps, Step{Op: "announce", J: rapid.IntRange(0, conns-1).Draw(t, "j"), Node: rapid.IntRange(0, c.Nodes-1).Draw(t, "to")})
 			default:
 				c.Steps = append(c.Steps, Step{Op: "gossipall"})
 			}
@@ -355,4 +375,51 @@ func TestRandom(t *testing.T) {
 		}
 		check(t, c)
 	})
+}
+
+// TestStaleAnnouncement: every placement of a chain of 3-4 (thorough 5) connections over 2-3
+// nodes; after the newest connection is accepted, its host receives — late, and before any
+// removal — the announcement of each earlier session in turn, and the newest session pings
+// after each: it must keep being served, and in the end every node resolves the identifier
+// to it. (The lookup used to return whichever record the map iteration met first.)
+func TestStaleAnnouncement(t *testing.T) {
+	maxLen := ev.Scale(4, 5)
+	si, sn := ev.Shard()
+	idx := 0
+	n := 0
+	for nodes := 2; nodes <= 3; nodes++ {
+		for l := 3; l <= maxLen; l++ {
+			var rec func(place []int)
+			rec = func(place []int) {
+				if len(place) < l {
+					for nd := 0; nd < nodes; nd++ {
+						rec(append(place, nd))
+					}
+					return
+				}
+				idx++
+				if idx%sn != si {
+					return
+				}
+				for _, order := range []string{"oldest-first", "newest-first"} {
+					c := Case{Nodes: nodes}
+					for _, nd := range place {
+						c.Steps = append(c.Steps, Step{Op: "connect", Node: nd})
+					}
+					host := place[l-1]
+					for k := 0; k < l-1; k++ {
+						j := k
+						if order == "newest-first" {
+							j = l - 2 - k
+						}
+						c.Steps = append(c.Steps, Step{Op: "announce", J: j, Node: host}, Step{Op: "ping", J: l - 1}, Step{Op: "ping", J: l - 1})
+					}
+					check(t, c, "stale-announcement")
+					n++
+				}
+			}
+			rec(nil)
+		}
+	}
+	ev.Exhaustive(fmt.Sprintf("late announcements (shard %d/%d): all placements of chains of 3..%d connections over 2 and 3 nodes; the newest session's host is handed the announcement of every earlier session (oldest first / newest first), the newest session pings after each", si, sn, maxLen))
 }
